@@ -680,6 +680,331 @@ fn run_impl(c: &Case, dir: &Path, id: usize) -> String {
     sections.join(" | ")
 }
 
+// ---------------------------------------------------------------- long routes / big trees
+// Routes and trees of 1023 .. 5000 edges, generated by formula from (kind, n) here and in
+// coq/Model/OutputRun.v (long_edge / long_geom / long_trav / long_tree).  Every format's content is
+// compared through its length and a digest of its flattened integer sequence (order-sensitive for
+// routes, an order-insensitive sum of entry digests for trees); on the implementation side the formats
+// of the same route are also compared with each other, reporting the first index where they disagree.
+
+#[derive(Clone, Debug, Serialize, Deserialize, PartialEq)]
+struct LongCase {
+    /// 0 = chain (edge i at position i), 1 = zig-zag (0, n-1, 1, n-2, ..), 2 = chain with one edge without a row
+    kind: usize,
+    n: usize,
+    tree: bool,
+    /// how often the implementation renders the case (order defects of parallel rendering are schedule dependent)
+    reps: usize,
+}
+fn long_edge(kind: usize, n: usize, i: usize) -> usize {
+    match kind {
+        0 => i,
+        1 => {
+            if i % 2 == 0 {
+                i / 2
+            } else {
+                n - 1 - i / 2
+            }
+        }
+        _ => {
+            if i == n - n / 5 {
+                n + 3
+            } else {
+                i
+            }
+        }
+    }
+}
+fn long_geom(e: usize) -> Vec<(i32, i32)> {
+    let z = e as i32;
+    let mut v = vec![(z, z % 7), (z + 1, (z + 3) % 5)];
+    if e % 3 == 0 {
+        v.push((z + 2, 1));
+    }
+    v
+}
+fn long_trav(kind: usize, n: usize, i: usize) -> Trav {
+    Trav { e: long_edge(kind, n, i), a: (i % 4) as i64, t: (10 + i % 13) as i64, s: vec![i as i64] }
+}
+fn long_as_case(l: &LongCase) -> Case {
+    let route: Vec<Trav> = (0..l.n).map(|i| long_trav(l.kind, l.n, i)).collect();
+    let tree: Vec<Branch> = (0..l.n).map(|i| Branch { key: i + 1, tv: i / 2, tr: long_trav(l.kind, l.n, i) }).collect();
+    let mut c = base_case((0..l.n).map(|e| Row::Line(long_geom(e))).collect(), vec![route], if l.tree { vec![tree] } else { vec![] });
+    c.req = simple_req(0, 0);
+    c.chains = vec![];
+    c
+}
+
+const MASK63: u64 = (1u64 << 63) - 1;
+fn dstep(h: u64, x: i64) -> u64 {
+    h.wrapping_mul(1000003).wrapping_add(x as u64) & MASK63
+}
+fn dig(l: &[i64]) -> u64 {
+    l.iter().fold(7u64, |h, x| dstep(h, *x))
+}
+fn msum(ls: &[Vec<i64>]) -> u64 {
+    ls.iter().fold(0u64, |a, l| a.wrapping_add(dig(l)) & MASK63)
+}
+fn num_label(v: &Value) -> Result<i64, String> {
+    int(v).parse::<i64>().map_err(|_| format!("not-a-number-label:{}", v))
+}
+fn ord_label(x: f64) -> Result<i64, String> {
+    grid(x).parse::<i64>().map_err(|_| format!("not-an-f32:{}", x))
+}
+fn flat_pts(pts: &[(f64, f64)]) -> Result<Vec<i64>, String> {
+    let mut v = Vec::with_capacity(2 * pts.len());
+    for (x, y) in pts {
+        v.push(ord_label(*x)?);
+        v.push(ord_label(*y)?);
+    }
+    Ok(v)
+}
+fn flat_trav_json(v: &Value) -> Result<Vec<i64>, String> {
+    let st = v["result_state"].as_array().ok_or("no-result-state")?;
+    let mut out = vec![v["edge_id"].as_u64().ok_or("no-edge-id")? as i64, num_label(&v["access_cost"])?, num_label(&v["traversal_cost"])?, st.len() as i64];
+    for x in st {
+        out.push(num_label(x)?);
+    }
+    Ok(out)
+}
+/// (id, flattened points, flattened properties) of every feature, in collection order
+fn parse_features(v: &Value) -> Result<Vec<(i64, Vec<i64>, Vec<i64>)>, String> {
+    let gj = geojson::GeoJson::from_json_value(v.clone()).map_err(|e| format!("geojson:{}", e))?;
+    let fc = match gj {
+        geojson::GeoJson::FeatureCollection(fc) => fc,
+        _ => return Err("not-a-feature-collection".into()),
+    };
+    fc.features
+        .iter()
+        .map(|f| {
+            let id = match &f.id {
+                Some(geojson::feature::Id::Number(n)) => n.as_u64().ok_or("id-not-u64")? as i64,
+                _ => return Err("no-id".to_string()),
+            };
+            let pts = match f.geometry.as_ref().map(|g| &g.value) {
+                Some(geojson::Value::LineString(ps)) => flat_pts(&positions(ps))?,
+                _ => return Err("not-a-linestring".to_string()),
+            };
+            let props = flat_trav_json(&Value::Object(f.properties.clone().ok_or("no-properties")?))?;
+            Ok((id, pts, props))
+        })
+        .collect()
+}
+fn feat_flat(f: &(i64, Vec<i64>, Vec<i64>)) -> Vec<i64> {
+    let mut v = vec![f.0, (f.1.len() / 2) as i64];
+    v.extend(&f.1);
+    v.extend(&f.2);
+    v
+}
+/// what one format says about the route: ids / records / flattened geometry, whichever it carries
+#[derive(Default)]
+struct RouteView {
+    ids: Option<Vec<i64>>,
+    recs: Option<Vec<Vec<i64>>>,
+    geom: Option<Vec<i64>>,
+}
+fn long_route_digest(f: Fmt, v: &Value, view: &mut RouteView) -> Result<String, String> {
+    match f {
+        Fmt::EdgeId => {
+            let ids: Vec<i64> = v.as_array().ok_or("ids-not-array")?.iter().map(|x| x.as_u64().map(|n| n as i64).ok_or("id-not-u64".to_string())).collect::<Result<_, _>>()?;
+            let d = format!("{}:{}", ids.len(), dig(&ids));
+            view.ids = Some(ids);
+            Ok(d)
+        }
+        Fmt::Json => {
+            let recs: Vec<Vec<i64>> = v.as_array().ok_or("recs-not-array")?.iter().map(flat_trav_json).collect::<Result<_, _>>()?;
+            let d = format!("{}:{}", recs.len(), dig(&recs.concat()));
+            view.ids = Some(recs.iter().map(|r| r[0]).collect());
+            view.recs = Some(recs);
+            Ok(d)
+        }
+        Fmt::GeoJson => {
+            let fs = parse_features(v)?;
+            let flat: Vec<i64> = fs.iter().flat_map(|f| feat_flat(f)).collect();
+            let d = format!("{}:{}", fs.len(), dig(&flat));
+            view.ids = Some(fs.iter().map(|f| f.0).collect());
+            view.recs = Some(fs.iter().map(|f| f.2.clone()).collect());
+            view.geom = Some(fs.iter().flat_map(|f| f.1.clone()).collect());
+            Ok(d)
+        }
+        Fmt::Wkt => {
+            let s = v.as_str().ok_or("wkt-not-a-string")?;
+            let l = geo::LineString::<f32>::try_from_wkt_str(s).map_err(|e| format!("wkt:{}", e))?;
+            let g = flat_pts(&ls_pts32(&l))?;
+            let d = format!("{}:{}", g.len() / 2, dig(&g));
+            view.geom = Some(g);
+            Ok(d)
+        }
+        Fmt::Wkb => match wkb_geom(v)? {
+            geo::Geometry::LineString(l) => {
+                let g = flat_pts(&ls_pts(&l))?;
+                let d = format!("{}:{}", g.len() / 2, dig(&g));
+                view.geom = Some(g);
+                Ok(d)
+            }
+            other => Err(format!("wkb-not-linestring:{:?}", other)),
+        },
+    }
+}
+fn long_tree_digest(f: Fmt, v: &Value) -> Result<String, String> {
+    let entries: Vec<Vec<i64>> = match f {
+        Fmt::EdgeId => v.as_array().ok_or("ids-not-array")?.iter().map(|x| x.as_u64().map(|n| vec![n as i64]).ok_or("id-not-u64".to_string())).collect::<Result<_, _>>()?,
+        Fmt::Json => v
+            .as_array()
+            .ok_or("recs-not-array")?
+            .iter()
+            .map(|b| {
+                let mut e = vec![b["terminal_vertex"].as_u64().ok_or("no-terminal-vertex")? as i64];
+                e.extend(flat_trav_json(&b["edge_traversal"])?);
+                Ok(e)
+            })
+            .collect::<Result<_, String>>()?,
+        Fmt::GeoJson => parse_features(v)?.iter().map(feat_flat).collect(),
+        Fmt::Wkt => {
+            let s = v.as_str().ok_or("wkt-not-a-string")?;
+            let m = geo::MultiLineString::<f32>::try_from_wkt_str(s).map_err(|e| format!("wkt:{}", e))?;
+            m.0.iter()
+                .map(|l| {
+                    let p = flat_pts(&ls_pts32(l))?;
+                    let mut e = vec![(p.len() / 2) as i64];
+                    e.extend(p);
+                    Ok(e)
+                })
+                .collect::<Result<_, String>>()?
+        }
+        Fmt::Wkb => match wkb_geom(v)? {
+            geo::Geometry::MultiLineString(m) => m
+                .0
+                .iter()
+                .map(|l| {
+                    let p = flat_pts(&ls_pts(l))?;
+                    let mut e = vec![(p.len() / 2) as i64];
+                    e.extend(p);
+                    Ok(e)
+                })
+                .collect::<Result<_, String>>()?,
+            other => return Err(format!("wkb-not-multilinestring:{:?}", other)),
+        },
+    };
+    Ok(format!("{}:{}", entries.len(), msum(&entries)))
+}
+fn first_diff<T: PartialEq>(a: &[T], b: &[T]) -> Option<usize> {
+    if a == b {
+        None
+    } else {
+        Some(a.iter().zip(b.iter()).position(|(x, y)| x != y).unwrap_or(a.len().min(b.len())))
+    }
+}
+fn run_long(l: &LongCase, dir: &Path, id: usize) -> String {
+    let c = long_as_case(l);
+    let files = dir.join("files");
+    std::fs::create_dir_all(&files).unwrap();
+    let geom_file: PathBuf = files.join(format!("geometry_{}.txt", id));
+    let uuid_file: PathBuf = files.join(format!("uuid_{}.txt", id));
+    write_table(&geom_file, &c.rows.iter().map(row_text).collect::<Vec<_>>(), false);
+    write_table(&uuid_file, &c.uuids, false);
+    let app = search_app();
+    let req = request_json(&c.req);
+    let mut reps = vec![];
+    for _ in 0..l.reps.max(1) {
+        let mut parts = vec![];
+        let mut views: Vec<(Fmt, RouteView)> = vec![];
+        for f in FORMATS.iter() {
+            let txt = match build_plugin(&Pcfg::Traversal(Some(*f), Some(*f)), &geom_file, &uuid_file) {
+                Err(_) => "BUILDERR".to_string(),
+                Ok(p) => match catch(AssertUnwindSafe(|| apply_output_processing(&req, search_result(&c), &app, &[p]))) {
+                    Err(_) => "PANIC".to_string(),
+                    Ok(resp) => {
+                        if let Some(e) = resp.get("error") {
+                            format!("ERR({})", classify_error(e.as_str().unwrap_or("?")))
+                        } else {
+                            let mut view = RouteView::default();
+                            let r = match resp.get("route").and_then(|r| r.get("path")) {
+                                Some(p) => long_route_digest(*f, p, &mut view).unwrap_or_else(|e| format!("?{}", e)),
+                                None => "?no-route-path".to_string(),
+                            };
+                            let t = match resp.get("tree") {
+                                None => "-".to_string(),
+                                Some(Value::Null) => "null".to_string(),
+                                Some(v) => long_tree_digest(*f, v).unwrap_or_else(|e| format!("?{}", e)),
+                            };
+                            views.push((*f, view));
+                            format!("r={} t={}", r, t)
+                        }
+                    }
+                },
+            };
+            parts.push(format!("{} {}", f.config_name(), txt));
+        }
+        // cross-format agreement of the same route: ids, records, geometry
+        let mut disagreements = vec![];
+        macro_rules! agree {
+            ($field:ident, $name:expr) => {
+                let have: Vec<(Fmt, &_)> = views.iter().filter_map(|(f, v)| v.$field.as_ref().map(|x| (*f, x))).collect();
+                if let Some((f0, first)) = have.first() {
+                    for (f, x) in have.iter().skip(1) {
+                        if let Some(i) = first_diff(first, x) {
+                            disagreements.push(format!("{}:{}!={}@{}", $name, f0.config_name(), f.config_name(), i));
+                        }
+                    }
+                }
+            };
+        }
+        agree!(ids, "ids");
+        agree!(recs, "recs");
+        agree!(geom, "geom");
+        parts.push(if disagreements.is_empty() { "agree=T".to_string() } else { format!("agree=F({})", disagreements.join(",")) });
+        reps.push(parts.join("; "));
+    }
+    let _ = std::fs::remove_file(&geom_file);
+    let _ = std::fs::remove_file(&uuid_file);
+    reps.join(" || ")
+}
+fn add_long(st: &mut Stream, l: LongCase, family: &str) {
+    let id = st.next_id();
+    let args = format!("{} {} {} {}", coq_nat(l.kind), coq_nat(l.n), coq_bool(l.tree), coq_nat(l.reps.max(1)));
+    let terms = vec![format!("line_m_long {} {}", id, args), format!("line_s_long {} {}", id, args)];
+    let out = run_long(&l, &st.dir.clone(), id);
+    st.count(&format!("family:{}", family));
+    st.count(&format!("long_route_edges:{}", l.n));
+    st.count(&format!("long_kind:{}", ["chain", "zigzag", "chain_one_missing"][l.kind.min(2)]));
+    if l.tree {
+        st.count(&format!("long_tree_branches:{}", l.n));
+    }
+    st.count(&format!("rayon_threads:{}", rayon::current_num_threads()));
+    st.count("nontrivial");
+    st.mark_nontrivial(&format!("{:?}", l));
+    let desc = json!({"id": id, "family": family, "long": serde_json::to_value(&l).unwrap()});
+    st.case(terms, vec![format!("I {} {}", id, out)], desc);
+}
+fn long_cases(thorough: bool, rng: &mut Rng) -> Vec<LongCase> {
+    let mut v = vec![
+        LongCase { kind: 1, n: 1023, tree: false, reps: 3 },
+        LongCase { kind: 1, n: 1024, tree: false, reps: 3 },
+        LongCase { kind: 0, n: 1024, tree: true, reps: 3 },
+        LongCase { kind: 0, n: 1025, tree: false, reps: 3 },
+        LongCase { kind: 1, n: 2048, tree: true, reps: 3 },
+        LongCase { kind: 2, n: 1500, tree: false, reps: 3 },
+        LongCase { kind: 0, n: 5000, tree: false, reps: 3 },
+    ];
+    if thorough {
+        for n in [1023usize, 1024, 1025, 2048, 5000] {
+            for kind in 0..2 {
+                for tree in [false, true] {
+                    let l = LongCase { kind, n, tree: tree && n <= 2048, reps: 3 };
+                    if !v.contains(&l) {
+                        v.push(l);
+                    }
+                }
+            }
+        }
+        for _ in 0..12 {
+            v.push(LongCase { kind: rng.below(3) as usize, n: rng.range(1024, 4000) as usize, tree: rng.chance(1, 3), reps: 3 });
+        }
+    }
+    v
+}
+
 // ---------------------------------------------------------------- Gallina emitters
 
 fn coq_fmt_opt(f: &Option<Fmt>) -> String {
@@ -1308,6 +1633,9 @@ fn random_case(r: &mut Rng) -> Case {
 
 fn main() {
     silence_panics();
+    // the output code may render on the rayon pool: never let the environment pin it to one thread
+    let threads = std::thread::available_parallelism().map(|n| n.get()).unwrap_or(4).max(4);
+    let _ = rayon::ThreadPoolBuilder::new().num_threads(threads).build_global();
     let a = parse_args();
     let header = "From Coq Require Import ZArith List String.\nFrom RC Require Import Base.Show Base.Res Model.Output Model.OutputRun.\nImport ListNotations.\nImport OUT.\nOpen Scope Z_scope.";
     let mut st = Stream::new(&a.out, "output", header, a.shards);
@@ -1317,9 +1645,16 @@ fn main() {
         if let Some(cases) = v.get("cases").and_then(|c| c.as_array()) {
             // a corpus file: {"cases": [{"name": .., "why": .., "case": <Case>}, ..]}
             for d in cases {
-                let c: Case = serde_json::from_value(d["case"].clone()).unwrap();
-                add_case(&mut st, c, &format!("corpus:{}", d["name"].as_str().unwrap_or("?")));
+                let name = format!("corpus:{}", d["name"].as_str().unwrap_or("?"));
+                if d.get("long").is_some() {
+                    add_long(&mut st, serde_json::from_value(d["long"].clone()).unwrap(), &name);
+                } else {
+                    let c: Case = serde_json::from_value(d["case"].clone()).unwrap();
+                    add_case(&mut st, c, &name);
+                }
             }
+        } else if v["case"].get("long").is_some() {
+            add_long(&mut st, serde_json::from_value(v["case"]["long"].clone()).unwrap(), "replay");
         } else {
             let c: Case = serde_json::from_value(v["case"]["case"].clone()).unwrap();
             add_case(&mut st, c, "replay");
@@ -1330,7 +1665,16 @@ fn main() {
     let thorough = a.extra.iter().any(|x| x == "--thorough");
     boundary_cases(&mut st, thorough);
     let mut rng = Rng::new(a.seed);
-    while st.next_id() < a.n {
+    // long routes are spread over the stream (one per shard of the model evaluation)
+    let mut long = long_cases(thorough, &mut rng.fork());
+    long.reverse();
+    let random_start = st.next_id();
+    let stride = ((a.n.saturating_sub(random_start)) / (long.len() + 1)).max(1);
+    while st.next_id() < a.n || !long.is_empty() {
+        if !long.is_empty() && (st.next_id() >= a.n || (st.next_id() - random_start) % stride == stride - 1) {
+            add_long(&mut st, long.pop().unwrap(), "long_route");
+            continue;
+        }
         let mut r = rng.fork();
         let c = random_case(&mut r);
         add_case(&mut st, c, "random");
